@@ -564,13 +564,10 @@ Qed.
 
 Lemma decode_table : forall cfg b,
   decode cfg b =
-    match cfg_strict cfg, b_class b with
-    | _, BValid => OkBody b
-    | _, BInvalidJson => Err
-    | true, _ => Err
-    | false, _ => OkBody b
-    end.
-Proof. intros cfg b. unfold decode. destruct (cfg_strict cfg); destruct (b_class b); reflexivity. Qed.
+    if undecodable (b_class b) then Err
+    else if has_strict_errors (b_class b) then (if cfg_strict cfg then Err else OkBody b)
+    else OkBody b.
+Proof. intros cfg b. unfold decode. destruct (b_class b); destruct (cfg_strict cfg); reflexivity. Qed.
 
 (* every other status, a transport error, an unreadable body: error *)
 Lemma other_is_error : forall cfg sc c0 evs c sp sent o,
@@ -768,6 +765,11 @@ Proof.
     destruct (served_from_cache cfg sc c0 evs c sp r sent b Hsp Hr E34 H)
       as [_ [_ [_ [e1 [e2 [_ [_ [_ Ho]]]]]]]].
     apply existsb_pair. apply (origin_pairs c0 sc _ _ _ Ho).
+  - (* no success from an undecodable body *)
+    unfold decodable_ok. destruct o as [b| |n]; try reflexivity.
+    destruct (finish_ok_inv _ _ _ _ _ _ _ Hf) as [r [_ [_ [_ [_ [_ Hd]]]]]].
+    pose proof (decode_acceptable cfg b b Hd) as Ha. unfold body_acceptable in Ha.
+    apply andb_true_iff in Ha. exact (proj1 Ha).
   - (* decoding *)
     unfold decode_ok. destruct (cs_reply sp) as [r|] eqn:Hr; [|reflexivity].
     destruct (r_status r =? 200) eqn:E200; [|reflexivity].
